@@ -6,31 +6,35 @@ package svc
 import (
 	"context"
 	"errors"
-	"sync/atomic"
 	"fmt"
 	"os"
 	"path/filepath"
 	"sort"
 	"strings"
 	"sync"
+	"sync/atomic"
 	"time"
 
 	"github.com/spq/pkappa2/internal/index"
 	"github.com/spq/pkappa2/internal/index/manager"
 	"github.com/spq/pkappa2/internal/query"
+	"github.com/spq/pkappa2/internal/tools/bitmask"
 	"github.com/spq/pkappa2/internal/verifhook"
 	"github.com/spq/pkappa2/verifx/mc"
 )
 
 type Job struct {
-	Kind    string // import | merge | tag | convert
-	Seq     int    // creation order
-	Gate    string // begin | done
-	Args    []any
+	Kind string // import | merge | tag | convert
+	Seq  int    // creation order
+	Gate string // begin | done
+	Args []any
 	// BeginArgs are the arguments of the begin gate (the index snapshot the job holds until its
 	// completion has been applied)
 	BeginArgs []any
-	release   chan struct{}
+	// InputDigest renders what the job was handed by value or by shared slice when it started
+	// (bitmasks of the tag and of the tags it refers to, the stream sets to convert)
+	InputDigest string
+	release     chan struct{}
 	// completing: released from its done gate, its completion closure has not finished yet
 	completing bool
 }
@@ -46,22 +50,85 @@ type HeldView struct {
 }
 
 type World struct {
-	Dir                                              string
-	PcapDir, IndexDir, SnapDir, StateDir, ConvDir    string
-	Staging                                          string
-	Mgr                                              *manager.Manager
-	mu                                               sync.Mutex
-	cond                                             *sync.Cond
-	parked                                           map[string]*Job // by kind
-	jobSeq                                           int
-	appliedCount                                     map[string]int
-	Applied                                          []string // log of applied notifications (kind + args digest)
-	Views                                            []*HeldView
-	Events                                           []string
-	ImportedApplied                                  [][]string // file lists of applied imports, in order
-	closed                                           bool
-	Errors                                           []string // harness-level problems
-	ConverterBin                                     string
+	Dir                                           string
+	PcapDir, IndexDir, SnapDir, StateDir, ConvDir string
+	Staging                                       string
+	Mgr                                           *manager.Manager
+	mu                                            sync.Mutex
+	cond                                          *sync.Cond
+	parked                                        map[string]*Job // by kind
+	jobSeq                                        int
+	appliedCount                                  map[string]int
+	Applied                                       []string // log of applied notifications (kind + args digest)
+	Views                                         []*HeldView
+	Events                                        []string
+	ImportedApplied                               [][]string // file lists of applied imports, in order
+	closed                                        bool
+	Errors                                        []string // harness-level problems
+	ConverterBin                                  string
+	// InputChanges: a job parked at its begin point found, when released, that what it had been handed
+	// differs from what it was handed - some other goroutine wrote to memory the job reads
+	InputChanges []string
+	// FutureMarks: mark tag -> ids that were marked (AddTag) before a stream with that id existed
+	FutureMarks map[string]map[uint64]bool
+	free        atomic.Pointer[freeMode]
+}
+
+// freeMode: the gates are switched off.  A point does nothing that synchronises goroutines with
+// each other (no lock, no notification), except that the points named in hold block on one channel
+// until the harness closes it.  Used by the free-running race pass (C20): the hand-offs of the
+// cooperative gates are happens-before edges and would hide unsynchronised accesses.
+type freeMode struct {
+	hold map[string]chan struct{}
+	ch   chan struct{}
+	once sync.Once
+}
+
+// FreeRun switches the gates off, releases every parked job and returns the function that releases
+// the jobs silently held at the points named in holdAt (e.g. "tag.done").  The world cannot be
+// stepped afterwards; Destroy still works.
+func (w *World) FreeRun(holdAt ...string) (release func()) {
+	fm := &freeMode{hold: map[string]chan struct{}{}, ch: make(chan struct{})}
+	for _, n := range holdAt {
+		fm.hold[n] = fm.ch
+	}
+	w.free.Store(fm)
+	w.mu.Lock()
+	for _, j := range w.parked {
+		select {
+		case <-j.release:
+		default:
+			close(j.release)
+		}
+	}
+	w.parked = map[string]*Job{}
+	w.mu.Unlock()
+	return func() { fm.once.Do(func() { close(fm.ch) }) }
+}
+
+// WaitIdle polls the status until no job is reported running except those of the given kinds
+// (which may be held), twice in a row.
+func (w *World) WaitIdle(d time.Duration, except ...string) bool {
+	ex := map[string]bool{}
+	for _, k := range except {
+		ex[k] = true
+	}
+	deadline := time.Now().Add(d)
+	idle := 0
+	for time.Now().Before(deadline) {
+		st := w.Mgr.Status()
+		busy := (st.ImportJobCount > 0 && !ex["import"]) || (st.MergeJobRunning && !ex["merge"]) || (st.TaggingJobRunning && !ex["tag"]) || (st.ConverterJobRunning && !ex["convert"])
+		if !busy {
+			idle++
+			if idle >= 3 {
+				return true
+			}
+		} else {
+			idle = 0
+		}
+		time.Sleep(2 * time.Millisecond)
+	}
+	return false
 }
 
 // ErrJobStuck: a released job neither parked at its next gate nor delivered its completion.
@@ -92,6 +159,12 @@ func init() {
 			worlds.Store(owner, a)
 			w = a
 		}
+		if fm := w.(*World).free.Load(); fm != nil {
+			if ch := fm.hold[name]; ch != nil {
+				<-ch
+			}
+			return
+		}
 		w.(*World).point(name, args)
 	})
 }
@@ -100,12 +173,18 @@ func (w *World) point(name string, args []any) {
 	kind, gate, _ := strings.Cut(name, ".")
 	w.mu.Lock()
 	if w.closed {
+		// the jobs of a service that is being stopped run free; what they import is still reported
+		if gate == "applied" && kind == "import" {
+			if files, ok := args[0].([]string); ok {
+				w.ImportedApplied = append(w.ImportedApplied, append([]string(nil), files...))
+			}
+		}
 		w.mu.Unlock()
 		return
 	}
 	switch gate {
 	case "begin":
-		j := &Job{Kind: kind, Seq: w.jobSeq, Gate: "begin", Args: args, BeginArgs: args, release: make(chan struct{})}
+		j := &Job{Kind: kind, Seq: w.jobSeq, Gate: "begin", Args: args, BeginArgs: args, release: make(chan struct{}), InputDigest: inputDigest(args)}
 		w.jobSeq++
 		if old := w.parked[kind]; old != nil && !old.completing {
 			w.Errors = append(w.Errors, fmt.Sprintf("second %s job began while %s is parked", kind, old.Name()))
@@ -114,6 +193,12 @@ func (w *World) point(name string, args []any) {
 		w.cond.Broadcast()
 		w.mu.Unlock()
 		<-j.release
+		// the job has not executed anything since it parked: what it was handed must be what it sees
+		if now := inputDigest(args); now != j.InputDigest {
+			w.mu.Lock()
+			w.InputChanges = append(w.InputChanges, fmt.Sprintf("%s job #%d: inputs when it started:\n%s\ninputs when it was released from its begin point:\n%s", kind, j.Seq, j.InputDigest, now))
+			w.mu.Unlock()
+		}
 	case "done":
 		j := w.parked[kind]
 		if j == nil {
@@ -145,6 +230,32 @@ func (w *World) point(name string, args []any) {
 	default:
 		w.mu.Unlock()
 	}
+}
+
+// inputDigest renders the job arguments that are shared memory the job goes on to read without
+// synchronisation: bitmasks (tag matches / uncertain sets, stream sets).
+func inputDigest(args []any) string {
+	var sb strings.Builder
+	for _, a := range args {
+		switch x := a.(type) {
+		case *query.TagDetails:
+			fmt.Fprintf(&sb, "tag matches=%s uncertain=%s\n", mc.Dump(x.Matches), mc.Dump(x.Uncertain))
+		case map[string]query.TagDetails:
+			var names []string
+			for n := range x {
+				names = append(names, n)
+			}
+			sort.Strings(names)
+			for _, n := range names {
+				fmt.Fprintf(&sb, "referenced %s matches=%s uncertain=%s\n", n, mc.Dump(x[n].Matches), mc.Dump(x[n].Uncertain))
+			}
+		case []*bitmask.LongBitmask:
+			for i, b := range x {
+				fmt.Fprintf(&sb, "streams[%d]=%s\n", i, mc.Dump(b))
+			}
+		}
+	}
+	return sb.String()
 }
 
 // NewWorld creates the data directories, the scenario captures (in a staging dir, not yet visible to
@@ -180,11 +291,9 @@ func NewWorldIn(dir, converterBin string, populate bool) (*World, error) {
 			}
 		}
 		if converterBin != "" {
-			b, err := os.ReadFile(converterBin)
-			if err != nil {
-				return nil, err
-			}
-			if err := os.WriteFile(filepath.Join(w.ConvDir, "conv"), b, 0o755); err != nil {
+			// a symlink, not a copy: executing a freshly written binary while another goroutine of
+			// this process forks can fail with ETXTBSY, which would make conversions fail at random
+			if err := os.Symlink(converterBin, filepath.Join(w.ConvDir, "conv")); err != nil {
 				return nil, err
 			}
 		}
@@ -318,6 +427,9 @@ func (w *World) Destroy() {
 func (w *World) Destroy0() { w.stop() }
 
 func (w *World) stop() {
+	if fm := w.free.Load(); fm != nil {
+		fm.once.Do(func() { close(fm.ch) })
+	}
 	w.mu.Lock()
 	w.closed = true
 	for _, j := range w.parked {
@@ -330,8 +442,6 @@ func (w *World) stop() {
 	w.parked = map[string]*Job{}
 	w.mu.Unlock()
 	mgr := w.Mgr
-	worlds.Delete(mgr)
-	retired.Store(mgr, true)
 	for _, v := range w.Views {
 		if !v.Released {
 			v.View.Release()
@@ -346,7 +456,14 @@ func (w *World) stop() {
 		}
 		time.Sleep(time.Millisecond)
 	}
+	// retired first: a point of this manager arriving between the two stores would otherwise look like
+	// a manager being created and be adopted by a world that is starting in another worker.  Until
+	// here the points of the draining jobs still reach the (closed) world, which records the imports
+	// they report.
+	retired.Store(mgr, true)
+	worlds.Delete(mgr)
 	mgr.Close()
+	mgr.VerifCloseIndexes()
 }
 
 // Stage makes a scenario capture visible to the service (like an upload does) and returns its name.
